@@ -236,6 +236,7 @@ fn check(id: &str, tier: Tier) -> i32 {
         .with("runs_without_verdict", J::u(total_discarded))
         .with("truncated_by_wall_clock_guard", J::Bool(truncated))
         .with("workers", J::u(nworkers as u64))
+        .with("distinct_counts_saturate_at", J::u(crate::core::DistinctSet::CAP as u64))
         .with("scenarios", J::Arr(per_scn))
         .with("real_components", J::Arr(prop.real.iter().map(|s| J::s(*s)).collect()))
         .with("stub_components", J::Arr(prop.stubs.iter().map(|s| J::s(*s)).collect()))
